@@ -65,25 +65,25 @@ func (e respEnv) rpc() *Rpc {
 
 func c13Alphabet() []respEnv {
 	base := []respEnv{
-		{Hdr: true, Status: -1, Body: true, Trailer: 1},            // ordinary unary reply / body+trailer
-		{Hdr: true, Status: 0, Body: true, Trailer: 1},             // explicit OK status with body
-		{Hdr: true, Status: 0, Trailer: 1},                         // OK trailer (end of stream)
-		{Hdr: true, Status: 5, Trailer: 1},                         // error trailer
-		{Hdr: true, Status: 5, Body: true, Trailer: 1},             // error status with body
-		{Hdr: true, Status: -1, Body: true},                        // body (stream message)
-		{Hdr: true, Meta: 1, Status: -1, Body: true},               // body with response metadata
-		{Hdr: true, Meta: 1, Status: -1},                           // header only
-		{Hdr: true, Meta: 2, Status: -1, Body: true},               // undecodable header metadata
-		{Hdr: true, Status: 0, Trailer: 2},                         // undecodable trailer metadata
-		{Hdr: false, Status: -1, Body: true, Trailer: 1},           // reply without header
-		{Hdr: false, Status: -1},                                   // nothing at all
-		{Hdr: true, Status: -1},                                    // header only, no metadata
-		{Hdr: true, Status: -1, Trailer: 1},                        // trailer without status
-		{Hdr: true, Status: -1, Trailer: 1, Reset: true},           // reset (as the server sends it)
-		{Hdr: true, Status: -1, Reset: true},                       // reset without trailer
-		{Hdr: true, Status: 7},                                     // status without trailer
-		{Hdr: false, Status: 3, Trailer: 1},                        // error trailer without header
-		{Hdr: true, Meta: 2, Status: 0, Trailer: 1},                // OK trailer with undecodable header metadata
+		{Hdr: true, Status: -1, Body: true, Trailer: 1},             // ordinary unary reply / body+trailer
+		{Hdr: true, Status: 0, Body: true, Trailer: 1},              // explicit OK status with body
+		{Hdr: true, Status: 0, Trailer: 1},                          // OK trailer (end of stream)
+		{Hdr: true, Status: 5, Trailer: 1},                          // error trailer
+		{Hdr: true, Status: 5, Body: true, Trailer: 1},              // error status with body
+		{Hdr: true, Status: -1, Body: true},                         // body (stream message)
+		{Hdr: true, Meta: 1, Status: -1, Body: true},                // body with response metadata
+		{Hdr: true, Meta: 1, Status: -1},                            // header only
+		{Hdr: true, Meta: 2, Status: -1, Body: true},                // undecodable header metadata
+		{Hdr: true, Status: 0, Trailer: 2},                          // undecodable trailer metadata
+		{Hdr: false, Status: -1, Body: true, Trailer: 1},            // reply without header
+		{Hdr: false, Status: -1},                                    // nothing at all
+		{Hdr: true, Status: -1},                                     // header only, no metadata
+		{Hdr: true, Status: -1, Trailer: 1},                         // trailer without status
+		{Hdr: true, Status: -1, Trailer: 1, Reset: true},            // reset (as the server sends it)
+		{Hdr: true, Status: -1, Reset: true},                        // reset without trailer
+		{Hdr: true, Status: 7},                                      // status without trailer
+		{Hdr: false, Status: 3, Trailer: 1},                         // error trailer without header
+		{Hdr: true, Meta: 2, Status: 0, Trailer: 1},                 // OK trailer with undecodable header metadata
 		{Hdr: true, Status: 0, Body: true, Trailer: 1, Reset: true}, // everything at once
 	}
 	var out []respEnv
